@@ -256,6 +256,7 @@ pub fn property() -> Property {
             Tier::Thorough => 1500.0,
         },
         info: || PropInfo {
+            floors: vec![],
             rule: "one run = a writer with 3..8 scripted storers (families: all ack, all 301, all 302, all silent, one 3xx among acks; delays 0..250 ms); first put_mutable at t0, second at t0+delta (delta in {0, <50 ms, <1.2 s, <2.5 s, <6 s}), relation in {identical, lower seq, equal seq other value, higher seq} x cas in {none, = in-flight seq, other}; 1/8 of the runs overlap two identical non-mutable puts instead. 'In flight' is decided exactly from the step counters (first future unresolved when the actor consumed the second message). Non-trivial = the second call landed while the first was in flight (or a non-mutable overlap); distinct = delivery order x relation x cas x family".into(),
             assumptions: vec!["loss-free network; storers answer every store request the same way".into()],
         },
